@@ -15,6 +15,12 @@ def run(tier):
         if r["hang"]:
             ck.violation("gocc did not terminate", {"bnf": r["text"]})
             continue
+        if r["model_lrtab"] == "refused":
+            st["refused_semantic"] = st.get("refused_semantic", 0) + 1
+            if r["rc_a"] == 0 or r["rc_noa"] == 0:
+                ck.violation("a grammar the semantic checks must refuse (reserved spelling, undefined or duplicate name) was accepted: status %s / %s" % (r["rc_noa"], r["rc_a"]),
+                             {"bnf": r["text"], "rc_a": r["rc_a"], "rc_noa": r["rc_noa"]})
+            continue
         mpanic = r["model_lrtab"] == "panic"
         if mpanic:
             st["refused_accept_clash"] += 1
